@@ -74,11 +74,11 @@ theorem doSetSigners_sum (s s' : St) (fr tg : Nat) (l : List (Nat × Nat)) (tok 
   injection h with h; subst h
   exact sumBal_modAcct _ _ _ (by intro _; rfl) U
 
-theorem doRegister_sum (c : Ctx) (s s' : St) (fr : Nat) (amt : Int) (flag : Nat) (inc : Nat) (nd : Bool) (U : List Nat)
+theorem doRegister_sum (c : Ctx) (s s' : St) (fr : Nat) (amt : Int) (flag : Nat) (inc : Nat) (nd : Bool) (px : TxProfile) (U : List Nat)
     (hn : U.Nodup) (hf : fr ∈ U) (hp : c.p.pool ∈ U)
-    (h : doRegister c s fr amt flag inc nd = .ok s') : sumBal s' U = sumBal s U := by
+    (h : doRegister c s fr amt flag inc nd px = .ok s') : sumBal s' U = sumBal s U := by
   unfold doRegister at h
-  simp only at h
+  simp only [depositAfterOverlay_true] at h
   split at h; · cases h
   split at h
   · -- first registration
@@ -124,7 +124,7 @@ theorem body_sum (c : Ctx) (s s' : St) (tx : Tx) (ib : Int) (U : List Nat) (hn :
     · injection h with h; subst h; rfl
     · injection h with h; subst h; exact sumBal_transfer _ _ _ _ U hn hs ht
   | vote cand => simp only [hk] at h; exact doVote_sum c s s' _ _ _ U h
-  | register amt flag inc nd => simp only [hk] at h; exact doRegister_sum c s s' _ _ _ _ _ U hn hs hp h
+  | register amt flag inc nd px => simp only [hk] at h; exact doRegister_sum c s s' _ _ _ _ _ _ U hn hs hp h
   | setSigners tg l tok => simp only [hk] at h; exact doSetSigners_sum s s' _ _ _ _ U h
   | box => simp [hk] at h
   | other => simp [hk] at h
